@@ -163,7 +163,7 @@ func (p *Program) defInstances(x *Exec, ts []*T) []*T {
 	for _, t := range ts {
 		walk(t)
 	}
-	for round := 0; round < 1 && len(apps) > 0 && len(out) < 200; round++ {
+	for round := 0; round < 2 && len(apps) > 0 && len(out) < 200; round++ {
 		cur := apps
 		apps = nil
 		for _, app := range cur {
